@@ -3,6 +3,14 @@
 import json, subprocess
 
 CHECKS = {
+ "C17": dict(level="exploration", design="§4 C17",
+   technique="runtime monitoring: state-based reference mirror of the kv last-write/tombstone rules compared with Get, full cursor walks, Diff and TraceHistory after every step of random multi-handle histories on the public kv API",
+   text="2-4 kv handles on one prefix run Set/Tombstone/RemoveTombstones/Commit/Clone/re-Open with distinct non-monotone times in default, conflict-callback and custom-merge modes, JSON and gob version objects, branch factors 2..4096; after every step the acting handle's Get results and complete cursor walk (values, times, earliest tombstones) must equal the mirror, sampled Diffs must report exactly the keys whose visible value differs, TraceHistory must start at the current value, yield only values ever set for the key and strictly decreasing times, and the conflict callback must only see two different non-tombstone values.",
+   note="The mirror keeps purges local to the handle that ran them and tracks which versions are current, exactly as documented; ties in time are not generated."),
+ "C18": dict(level="exploration", design="§4 C18",
+   technique="runtime monitoring: round-trip/determinism/tamper oracle on the encryption primitives (hook H4 wrappers) with every single-bit flip of short ciphertexts, plus end-to-end scans of stored node objects for plaintext markers on the instrumented store",
+   text="All message lengths 0..130 (0..1100 thorough) under several passphrases: decrypt(encrypt(m)) = m, equal plaintext gives equal ciphertext, the nonce depends on the key, every truncation, extension, other passphrase and every single-bit flip (all bits for ciphertexts <= 96 bytes) must be rejected, legacy-format boxes must open to their plaintext. End to end with V1NodeEncryptor: no node object contains a 16-byte marker stored as key or value, a wrong passphrase or one flipped bit in a node object yields errors, recommitting unchanged data stores nothing twice and never rewrites a name.",
+   note="Behavioural only: no claim about cipher strength. Exhaustive only over bit positions of the listed short ciphertexts."),
  "C03": dict(level="exploration", design="§4 C03",
    technique="runtime monitoring: deterministic request scheduler in the instrumented store (exhaustive DFS over version-namespace interleavings for two-client configurations, random priorities over all requests for 3-4 clients) + porcupine linearizability check of the recorded commit/open history against a grow-only set; -race build",
    text="Commits and opens are recorded with call/return at the scheduler's logical time; each history must be linearizable as a grow-only set whose reads return exactly the current set (so an opener can neither miss a commit that completed before it began nor show a state such as the empty table), and after the clients stop a read-write and a read-only open must contain every acknowledged marker. Two-client configurations are enumerated completely at the granularity of root/ requests; larger ones are sampled.",
